@@ -39,6 +39,95 @@ struct Initial {
     locations: Vec<String>,
     /// full container semantics available (packs inside the file)?
     logical: Option<Logical>,
+    /// the library's view of the manifest in the initial state, locations blanked: nothing of it
+    /// may change along any history
+    base: J,
+}
+
+fn blank_locations(mut m: J) -> J {
+    if let Some(d) = m.get_mut("directory") {
+        d["location"] = json!(null);
+    }
+    if let Some(ps) = m.get_mut("packs").and_then(|p| p.as_array_mut()) {
+        for p in ps {
+            p["location"] = json!(null);
+        }
+    }
+    m
+}
+
+fn base_dump(dir: &Path, name: &str, bytes: &[u8]) -> J {
+    let p = dir.join(format!("base-{name}"));
+    std::fs::write(&p, bytes).unwrap();
+    let m = jbkmc::catch(|| dump_manifest(&p)).unwrap_or_else(|e| json!({"panic": e}));
+    let _ = std::fs::remove_file(&p);
+    blank_locations(m)
+}
+
+fn put_crc(buf: &mut [u8], start: usize, payload: usize) {
+    let c = indep::crc32c_jbk(&buf[start..start + payload]);
+    buf[start + payload..start + payload + 4].copy_from_slice(&c.to_be_bytes());
+}
+
+/// Set the group byte of pack-info `which` (not reachable through the creator API, which always
+/// writes 0) and make the file valid again: block CRC and the manifest's masked blake3.
+fn patch_group(bytes: &mut Vec<u8>, slots: &[PackSlot], which: usize, group: u8) -> Result<(), String> {
+    let at = slots[which].info_offset;
+    bytes[at + 35] = group;
+    put_crc(bytes, at, 252);
+    let packs = indep::packs_in_file(bytes)?;
+    let m = packs.iter().find(|p| p.head.kind == b'm').ok_or("no manifest in the file")?;
+    let off = m.offset;
+    let cip = off + m.head.check_info_pos as usize;
+    if bytes[cip] != 1 {
+        return Err("manifest check kind is not blake3".into());
+    }
+    let mut data = bytes[off..cip].to_vec();
+    for s in slots {
+        for b in &mut data[s.info_offset - off + 38..s.info_offset - off + 256] {
+            *b = 0;
+        }
+    }
+    let h = blake3::hash(&data);
+    bytes[cip + 1..cip + 33].copy_from_slice(h.as_bytes());
+    put_crc(bytes, cip, 33);
+    Ok(())
+}
+
+/// A manifest (and a container around it) whose packs carry `free_len` bytes of free data each:
+/// the pack-info table then starts `3*free_len` bytes into the manifest.
+fn big_free(dir: &Path, free_len: usize) -> Result<(PathBuf, PathBuf), String> {
+    use jbk::creator;
+    std::fs::create_dir_all(dir).unwrap();
+    let vendor = jbk::VendorId::from(VENDOR);
+    let mut m = creator::ManifestPackCreator::new(vendor, Default::default());
+    let mut files = vec![];
+    let dpath = dir.join("d.jbkd");
+    let dc = creator::DirectoryPackCreator::new(jbk::PackId::from(0), vendor, Default::default());
+    let mut f = std::fs::OpenOptions::new().read(true).write(true).create(true).truncate(true).open(&dpath).map_err(|e| e.to_string())?;
+    let mut d = dc.finalize().map_err(|e| e.to_string())?.write(&mut f).map_err(|e| e.to_string())?;
+    d.free_data = vec![0xD0; free_len];
+    m.add_pack(d, "d.jbkd");
+    files.push(dpath);
+    for id in 1..=2u16 {
+        let cp = dir.join(format!("c{id}.jbkc"));
+        let up = camino::Utf8PathBuf::from_path_buf(cp.clone()).unwrap();
+        let mut c = creator::ContentPackCreator::new(&up, jbk::PackId::from(id), vendor, Default::default(), creator::Compression::None).map_err(|e| e.to_string())?;
+        c.add_content(Box::new(std::io::Cursor::new(format!("content of pack {id}").into_bytes())), Default::default()).map_err(|e| e.to_string())?;
+        let (_f, mut info) = c.finalize().map_err(|e| e.to_string())?;
+        info.free_data = (0..free_len).map(|i| (i as u8).wrapping_mul(id as u8 + 2)).collect();
+        m.add_pack(info, format!("c{id}.jbkc"));
+        files.push(cp);
+    }
+    let mpath = dir.join("m.jbkm");
+    let mut f = std::fs::OpenOptions::new().read(true).write(true).create(true).truncate(true).open(&mpath).map_err(|e| e.to_string())?;
+    m.finalize(&mut f).map_err(|e| e.to_string())?;
+    drop(f);
+    files.push(mpath.clone());
+    let cat = dir.join("all.jbk");
+    let up = camino::Utf8PathBuf::from_path_buf(cat.clone()).unwrap();
+    jbk::tools::concat(&files, &up).map_err(|e| format!("concat: {e}"))?;
+    Ok((mpath, cat))
 }
 
 fn locate_slots(buf: &[u8]) -> Result<Vec<PackSlot>, String> {
@@ -82,7 +171,8 @@ fn initials(dir: &Path, thorough: bool) -> Result<Vec<Initial>, String> {
     let bytes = std::fs::read(&c.path).map_err(|e| e.to_string())?;
     let slots = locate_slots(&bytes)?;
     let locations = read_locations(&bytes, &slots);
-    out.push(Initial { name: "standalone-manifest".into(), bytes, file_name: "c.jbk".into(), slots, locations, logical: None });
+    let base = base_dump(dir, "sep", &bytes);
+    out.push(Initial { name: "standalone-manifest".into(), bytes, file_name: "c.jbk".into(), slots, locations, logical: None, base });
     // manifest inside a OneFile container
     let d1 = dir.join("one");
     std::fs::create_dir_all(&d1).unwrap();
@@ -91,7 +181,18 @@ fn initials(dir: &Path, thorough: bool) -> Result<Vec<Initial>, String> {
     let bytes = std::fs::read(&c1.path).map_err(|e| e.to_string())?;
     let slots = locate_slots(&bytes)?;
     let locations = read_locations(&bytes, &slots);
-    out.push(Initial { name: "onefile".into(), bytes, file_name: "c.jbk".into(), slots, locations, logical: Some(l1.clone()) });
+    let base = base_dump(dir, "one", &bytes);
+    // the same container with non-zero group bytes (a field this version never writes itself)
+    {
+        let mut b2 = bytes.clone();
+        for (i, g) in [(0usize, 0x5au8), (slots.len() - 1, 0xff)] {
+            patch_group(&mut b2, &slots, i, g)?;
+        }
+        let slots2 = locate_slots(&b2)?;
+        let base2 = base_dump(dir, "one-groups", &b2);
+        out.push(Initial { name: "onefile-groups".into(), bytes: b2, file_name: "c.jbk".into(), slots: slots2, locations: locations.clone(), logical: Some(l1.clone()), base: base2 });
+    }
+    out.push(Initial { name: "onefile".into(), bytes, file_name: "c.jbk".into(), slots, locations, logical: Some(l1.clone()), base });
     // concat outputs: manifest first / middle / last
     let orders: Vec<Vec<usize>> = if thorough {
         jbkmc::gen::permutations(c.files.len()).into_iter().step_by(7).collect()
@@ -113,7 +214,21 @@ fn initials(dir: &Path, thorough: bool) -> Result<Vec<Initial>, String> {
         let bytes = std::fs::read(&outp).map_err(|e| e.to_string())?;
         let slots = locate_slots(&bytes)?;
         let locations = read_locations(&bytes, &slots);
-        out.push(Initial { name: format!("concat{order:?}"), bytes, file_name: "cat.jbk".into(), slots, locations, logical: Some(l.clone()) });
+        let base = base_dump(dir, "cat", &bytes);
+        out.push(Initial { name: format!("concat{order:?}"), bytes, file_name: "cat.jbk".into(), slots, locations, logical: Some(l.clone()), base });
+    }
+    // pack-info table far into the manifest (beyond the 64 KiB / 128 KiB read-buffer sizes):
+    // 3 packs x free data of 100 / 30 000 / 70 000 bytes, standalone and inside a concat output
+    let frees: Vec<usize> = if thorough { vec![100, 22_000, 30_000, 70_000] } else { vec![30_000, 70_000] };
+    for free in frees {
+        let (mpath, cat) = big_free(&dir.join(format!("free{free}")), free)?;
+        for (nm, pth, fname) in [("manifest", mpath, "m.jbkm"), ("concat", cat, "all.jbk")] {
+            let bytes = std::fs::read(&pth).map_err(|e| e.to_string())?;
+            let slots = locate_slots(&bytes)?;
+            let locations = read_locations(&bytes, &slots);
+            let base = base_dump(dir, "free", &bytes);
+            out.push(Initial { name: format!("free-data-{free}-{nm}"), bytes, file_name: fname.into(), slots, locations, logical: None, base });
+        }
     }
     Ok(out)
 }
@@ -149,6 +264,13 @@ fn check_state(init: &Initial, bytes: &[u8], model: &[String], path: &Path) -> R
         }
         if m["check"] != json!(true) {
             return Err(v("manifest check fails after a rewrite", format!("{}", m["check"])));
+        }
+        let blank = blank_locations(m.clone());
+        if blank != init.base {
+            let mut diffs = vec![];
+            compare(&init.base, &blank, "", &mut diffs);
+            let what = diffs.first().map(|d| format!("{}: {} -> {}", d.path, d.pristine, d.altered)).unwrap_or_else(|| "an error node appeared".into());
+            return Err(v("something else than a location changed in the manifest (library view)", what));
         }
         let packs = m["packs"].as_array().unwrap();
         let dirinfo = &m["directory"];
@@ -187,7 +309,7 @@ fn main() {
     let mut rep = Report::new(
         "locmc",
         "C12",
-        "BFS over rewrite histories: state = vector of recorded locations; events = (every pack listed incl. the directory pack, or an unknown uuid) x 7 strings ('', 'a', 'd/e.jbkc', 213 x 'x', 212-byte and 213-byte multi-byte UTF-8); depth 2 (quick) / 3 (thorough) from each initial state (standalone manifest, manifest inside a OneFile container, inside concat outputs with the manifest last / in the middle); every transition calls the real tools::set_location on a real file; non-trivial = a transition that changes the state",
+        "BFS over rewrite histories: state = vector of recorded locations; events = (every pack listed incl. the directory pack, or an unknown uuid) x 7 strings ('', 'a', 'd/e.jbkc', 213 x 'x', 212-byte and 213-byte multi-byte UTF-8); depth 2 (quick) / 3 (thorough) from each initial state (standalone manifest, manifest inside a OneFile container, inside concat outputs with the manifest last / in the middle, the same with non-zero group bytes patched in, and manifests whose pack-info table lies 90 KB / 210 KB into the pack because of per-pack free data, standalone and concatenated); in every state: block CRCs, file structure, locations (independent and library), manifest check(), the library's whole view of the manifest except locations unchanged, container contents; every transition calls the real tools::set_location on a real file; non-trivial = a transition that changes the state",
     );
     let dir = jbkmc::scratch_dir("loc");
     let t = args.thorough();
